@@ -5,6 +5,7 @@ import Casm.Model.Layout
 import Casm.Model.CharCounter
 import Casm.Model.FileNav
 import Casm.Model.Driver
+import Casm.Model.Assemble
 /-! casm-model: answers the line protocol from the Lean model's executable definitions. -/
 open Casm
 
@@ -220,6 +221,30 @@ def step (line : String) : String :=
     match parseFile (unhexText t) with
     | .ok ns => "ok" ++ showNodes ns
     | .error e => s!"err {e}"
+  | "asm" :: maxIter :: optS :: optM :: defsField :: nroots :: nfiles :: rest =>
+    match maxIter.toNat?, nroots.toNat?, nfiles.toNat? with
+    | some mi, some nr, some _ =>
+      let defines : List (String × Value) := if defsField == "-" then [] else
+        (defsField.splitOn ",").filterMap fun d =>
+          match d.splitOn "=" with
+          | [n, v] =>
+            let name := String.ofList (unhexText n)
+            if v == "t" then some (name, .bool true)
+            else if v == "f" then some (name, .bool false)
+            else ((String.ofList (v.toList.drop 1)).toInt?).map fun i => (name, Value.int ⟨i, none⟩)
+          | _ => none
+      let rec pairs : List String → List (List Char × List Nat)
+        | n :: c :: r => (unhexText n, if c == "-" then [] else unhexBytes c.toList) :: pairs r
+        | _ => []
+      let files := pairs rest
+      let roots := (files.take nr).map (·.1)
+      let opts : Opts := { maxIter := mi, optStatic := optS == "1", optMatcher := optM == "1", defines := defines }
+      match assemble opts files roots with
+      | .ok r =>
+        let syms := if r.symbols.isEmpty then "-" else ",".intercalate (r.symbols.map fun (n, b) => s!"{n}={b.v}:{showSize b.size}")
+        s!"ok {showBits r.bits} {showSpans r.spans} iters={r.iters} syms={syms}"
+      | .error msgs => s!"err {msgs.headD "?"}"
+    | _, _, _ => "bad-op"
   | _ => "bad-op"
 
 partial def loop (h : IO.FS.Stream) (out : IO.FS.Stream) : IO Unit := do
